@@ -43,13 +43,20 @@ pub fn p_addr(t: &mut Toks) -> Addr {
     Addr { kind: Kind::from_u16(kind), author: Pubkey::from_bytes(arr32(&author)), d }
 }
 
+pub fn leak_names(names: &[Vec<u8>]) -> Vec<&'static str> {
+    names.iter().map(|n| &*Box::leak(String::from_utf8(n.clone()).unwrap().into_boxed_str())).collect()
+}
+
 impl Hist {
     pub fn new(names: Vec<Vec<u8>>, root: &std::path::Path) -> Hist {
         let dir = tempfile::Builder::new().prefix("h").tempdir_in(root).unwrap();
-        let names: Vec<&'static str> =
-            names.iter().map(|n| &*Box::leak(String::from_utf8(n.clone()).unwrap().into_boxed_str())).collect();
-        let store = Store::new(dir.path(), names.clone()).unwrap();
-        Hist { dir, store: Some(store), names, offsets: Vec::new() }
+        Hist::open(dir, leak_names(&names)).unwrap()
+    }
+
+    /// open (or create) the store in an existing directory
+    pub fn open(dir: tempfile::TempDir, names: Vec<&'static str>) -> Result<Hist, String> {
+        let store = Store::new(dir.path(), names.clone()).map_err(|e| format!("{}", db_err(&e)))?;
+        Ok(Hist { dir, store: Some(store), names, offsets: Vec::new() })
     }
 
     fn st(&self) -> &Store {
@@ -285,4 +292,136 @@ pub fn cmd_dbhist(t: &mut Toks, root: &std::path::Path) -> String {
         }
     }
     format!("dbhist {}", segs.join(" | "))
+}
+
+// ---------------------------------------------------------------- crash engine (C13)
+use std::sync::atomic::{AtomicI64, AtomicU64, Ordering};
+use std::sync::Mutex;
+
+static CUR_OP: AtomicI64 = AtomicI64::new(-1);
+static TRACE: Mutex<Vec<(i64, &'static str)>> = Mutex::new(Vec::new());
+static COUNT: AtomicU64 = AtomicU64::new(0);
+static KILL_AT: AtomicU64 = AtomicU64::new(u64::MAX);
+
+fn run_ops(h: &mut Hist, t: &mut Toks, stop_at: &str) -> Vec<String> {
+    let mut segs: Vec<String> = Vec::new();
+    let mut n: i64 = 0;
+    while t.i < t.a.len() {
+        let sep = t.next();
+        if sep == stop_at && stop_at != ";" {
+            break;
+        }
+        assert_eq!(sep, ";");
+        CUR_OP.store(n, Ordering::SeqCst);
+        let start = t.i;
+        let r = std::panic::catch_unwind(std::panic::AssertUnwindSafe(|| h.op(t)));
+        match r {
+            Ok(s) => segs.push(s),
+            Err(_) => {
+                segs.push("panic".to_string());
+                t.i = start;
+                while t.i < t.a.len() && t.a[t.i] != ";" && t.a[t.i] != ";;" {
+                    t.i += 1;
+                }
+                if h.store.is_none() {
+                    break;
+                }
+            }
+        }
+        n += 1;
+    }
+    segs
+}
+
+/// `crashtrace L<names> ; op ; op ...` - a normal run recording every point hit, per op
+pub fn cmd_crashtrace(t: &mut Toks, root: &std::path::Path) -> String {
+    let names = t.list(&mut |t| t.b());
+    TRACE.lock().unwrap().clear();
+    CUR_OP.store(-1, Ordering::SeqCst);
+    pocket_db::verif::install(Box::new(|name| {
+        TRACE.lock().unwrap().push((CUR_OP.load(Ordering::SeqCst), name));
+    }));
+    let mut h = Hist::new(names, root);
+    let segs = run_ops(&mut h, t, ";");
+    pocket_db::verif::clear();
+    let tr: Vec<String> = TRACE.lock().unwrap().iter().map(|(o, n)| format!("{o}:{n}")).collect();
+    format!("crashtrace trace={} segs={}", tr.join(","), segs.join(" | "))
+}
+
+/// child: `crashchild b:<dir> L<names> n:<k> ; op ; op ...` - dies at the k-th point (0-based)
+pub fn cmd_crashchild(t: &mut Toks) -> String {
+    let dir = String::from_utf8(t.b()).unwrap();
+    let names = leak_names(&t.list(&mut |t| t.b()));
+    let k = t.n() as u64;
+    KILL_AT.store(k, Ordering::SeqCst);
+    COUNT.store(0, Ordering::SeqCst);
+    pocket_db::verif::install(Box::new(|_name| {
+        let c = COUNT.fetch_add(1, Ordering::SeqCst);
+        if c == KILL_AT.load(Ordering::SeqCst) {
+            // SIGKILL-equivalent: no destructors, no flushing
+            unsafe { libc::_exit(9) };
+        }
+    }));
+    let store = match Store::new(&dir, names.clone()) {
+        Ok(s) => s,
+        Err(_) => unsafe { libc::_exit(3) },
+    };
+    // a Hist over a directory we do not own
+    let td = tempfile::Builder::new().prefix("unused").tempdir().unwrap();
+    let mut h = Hist { dir: td, store: Some(store), names, offsets: Vec::new() };
+    let _ = run_ops(&mut h, t, ";");
+    drop(h);
+    unsafe { libc::_exit(0) }
+}
+
+/// parent: `crash L<names> n:<k> ; hist ops ;; continuation ops`
+pub fn cmd_crash(t: &mut Toks, root: &std::path::Path, line: &str) -> String {
+    let names = t.list(&mut |t| t.b());
+    let k = t.n();
+    let dir = tempfile::Builder::new().prefix("c").tempdir_in(root).unwrap();
+    // the history part of the line, verbatim
+    let hist_start = line.find(" ; ").map(|i| i + 1).unwrap_or(line.len());
+    let hist_end = line.find(" ;; ").unwrap_or(line.len());
+    let hist = if hist_start < hist_end { &line[hist_start..hist_end] } else { "" };
+    let names_tok = s_list(&names, &|n| s_bytes(n));
+    let child_line = format!(
+        "crashchild {} {} n:{} {}\n",
+        s_bytes(dir.path().to_str().unwrap().as_bytes()),
+        names_tok,
+        k,
+        hist
+    );
+    let exe = std::env::current_exe().unwrap();
+    let mut child = std::process::Command::new(exe)
+        .stdin(std::process::Stdio::piped())
+        .stdout(std::process::Stdio::null())
+        .stderr(std::process::Stdio::null())
+        .spawn()
+        .unwrap();
+    {
+        use std::io::Write;
+        let mut si = child.stdin.take().unwrap();
+        si.write_all(child_line.as_bytes()).unwrap();
+    }
+    let st = child.wait().unwrap();
+    let how = match st.code() {
+        Some(9) => "killed".to_string(),
+        Some(0) => "completed".to_string(),
+        Some(c) => format!("exit{c}"),
+        None => "signal".to_string(),
+    };
+    // skip the history tokens in our own token stream
+    while t.i < t.a.len() && t.a[t.i] != ";;" {
+        t.i += 1;
+    }
+    let mut h = match Hist::open(dir, leak_names(&names)) {
+        Ok(h) => h,
+        Err(e) => return format!("crash child={how} reopen=err:{e}"),
+    };
+    // continuation: `;; op ; op ...`
+    if t.i < t.a.len() {
+        t.a[t.i] = ";";
+    }
+    let segs = run_ops(&mut h, t, ";");
+    format!("crash child={} reopen=ok | {}", how, segs.join(" | "))
 }
